@@ -231,16 +231,16 @@ func c01run(t *testing.T, out *vt.Recorder, ep aEpoch, spec fixture.EpochSpec, c
 // the value of the section's length varint) of exactly `target` bytes
 func c01fit(t *testing.T, target int, seed int64) (fixture.TxSpec, bool) {
 	dir := t.TempDir()
-	frames := 1
-	if target < 400 {
-		frames = 5
-	}
+	small := target < 400 // small bodies: tune a metadata frame (transaction frames must keep the signature in frame 0)
 	pad := 0
-	if target > 400 {
+	if !small {
 		pad = target - 330
 	}
-	for iter := 0; iter < 60; iter++ {
-		ts := fixture.TxSpec{SigID: 1, Accounts: []int{1}, DataFrames: frames, MetaFrames: 1, NoMeta: true, Pad: pad}
+	for iter := 0; iter < 80; iter++ {
+		ts := fixture.TxSpec{SigID: 1, Accounts: []int{1}, DataFrames: 1, MetaFrames: 1, NoMeta: true, Pad: pad}
+		if small {
+			ts = fixture.TxSpec{SigID: 1, Accounts: []int{1}, DataFrames: 1, MetaFrames: 3, MetaPad: pad}
+		}
 		spec := fixture.EpochSpec{Epoch: 1, Seed: seed, Fanout: 2, Trailer: false, Blocks: []fixture.BlockSpec{{Slot: 432001, Parent: 432000, Entries: []fixture.EntrySpec{{Txs: []fixture.TxSpec{ts}}}}}}
 		b, err := fixture.Build(spec, filepath.Join(dir, "fit.car"))
 		if err != nil {
@@ -248,7 +248,7 @@ func c01fit(t *testing.T, target int, seed int64) (fixture.TxSpec, bool) {
 		}
 		best := -1 << 30
 		for _, s := range b.Sections {
-			if s.Kind != 0 && s.Kind != 6 {
+			if (small && s.Kind != 6) || (!small && s.Kind != 0) {
 				continue
 			}
 			body := len(s.Cid.Bytes()) + len(s.Data)
@@ -262,14 +262,11 @@ func c01fit(t *testing.T, target int, seed int64) (fixture.TxSpec, bool) {
 		if best == -1<<30 {
 			return ts, false // every candidate section is already larger than the target
 		}
-		step := -best
-		if frames > 1 {
-			step *= frames // the padding is spread over the frames
-			if step > frames {
-				step -= frames - 1
-			}
+		if small {
+			pad++ // hex log bytes compress: creep up
+		} else {
+			pad += -best
 		}
-		pad += step
 	}
 	return fixture.TxSpec{}, false
 }
@@ -301,7 +298,7 @@ func TestVerifC01(t *testing.T) {
 		}
 		sig++
 		ts.SigID = sig
-		bt = append(bt, aTx{Sig: sig, Accts: []int{1}, Loaded: []int{}, Nometa: true, Dframes: ts.DataFrames, Mframes: 1})
+		bt = append(bt, aTx{Sig: sig, Accts: []int{1}, Loaded: []int{}, Nometa: ts.NoMeta, Dframes: ts.DataFrames, Mframes: ts.MetaFrames})
 		specTxs = append(specTxs, ts)
 	}
 	if len(bt) > 0 {
